@@ -42,11 +42,11 @@ def resStr : Res → String
 def reqStr (r : Req) : String := toString r.chunk ++ (if r.canc then "*" else "")
 
 def peerStr (i : Nat) (p : Peer) : String :=
-  let bits := String.ofList (p.bits.map (fun b => if b then '1' else '0'))
+  let bits := joinNat (bitList p.bits)
   let q := if p.queue.isEmpty then "-" else ",".intercalate (p.queue.map reqStr)
   let r := if p.requested.isEmpty then "-" else ",".intercalate (p.requested.map reqStr)
   if p.alive then
-    s!"p{i}: a=1{boolStr p.present} u={boolStr p.unchoked} nil={boolStr p.bmNil} b={bits} f={joinNat p.fast} q={q} r={r} ev={p.evq.length} ov={p.overflow.length} w={p.wlen}"
+    s!"p{i}: a=1{boolStr p.present} u={boolStr p.unchoked} i={boolStr p.hasInfo}{boolStr p.isSeed} nil={boolStr p.bmNil} b={bits} f={joinNat p.fast} q={q} r={r} ev={p.evq.length} ov={p.overflow.length} w={p.wlen}"
   else
     s!"p{i}: a=0{boolStr p.present} rq={joinNat (p.evq.flatMap reqChunks)} ov={p.overflow.length}"
 
@@ -62,7 +62,9 @@ def stateStr (s : State) : String :=
   let ws := (enumFrom 0 s.writers).map (fun (j, w) => writerStr j w)
   let pcs := " ".intercalate (s.pieces.map (fun pc =>
     String.ofList (pc.bits.map (fun b => if b then '1' else '0')) ++ (if pc.complete then "C" else "")))
-  s!"if={joinNat s.inFlight} av={joinNat s.avail} te={s.tEvent.length} fl={boolStr s.sat}{boolStr s.under}{boolStr s.aunder} pc={pcs} | " ++
+  let inf := if s.hasMeta then joinNat s.inFlight else "-"
+  let pcs := if s.hasMeta then pcs else ""
+  s!"if={inf} av={joinNat s.avail} te={s.tEvent.length} fl={boolStr s.sat}{boolStr s.under}{boolStr s.aunder} pc={pcs} | " ++
     "; ".intercalate ps ++ " | " ++ "; ".intercalate ws
 
 def parseMsg : List String → Option Msg
@@ -99,6 +101,7 @@ def parseOp : List String → Option Op
   | ["ww", w, n] => do pure (.wWrite (← nat? w) (← nat? n))
   | ["wc", w] => do pure (.wClose (← nat? w))
   | ["fin", i] => do pure (.finalise (← nat? i))
+  | ["metac"] => some .metaComplete
   | _ => none
 
 def stepLine (s : State) (ws : List String) : State × String :=
@@ -109,6 +112,15 @@ def stepLine (s : State) (ws : List String) : State × String :=
       let g : Geom := { ps := ps, len := len }
       if decide g.Valid then
         let s := Sched.init g tcap
+        (s, "init | " ++ stateStr s)
+      else (s, "bad-geom")
+    | _, _, _ => (s, "bad-op")
+  | ["minit", ps, len, tcap] =>
+    match nat? ps, nat? len, nat? tcap with
+    | some ps, some len, some tcap =>
+      let g : Geom := { ps := ps, len := len }
+      if decide g.Valid then
+        let s := Sched.initMagnet g tcap
         (s, "init | " ++ stateStr s)
       else (s, "bad-geom")
     | _, _, _ => (s, "bad-op")
